@@ -149,8 +149,10 @@ public:
     {
       if (QUILL_UNLIKELY(write_buffer == nullptr))
       {
-        // not enough space to push to queue message is dropped
-        if (macro_metadata->event() == MacroMetadata::Event::Log)
+        // not enough space to push to queue message is dropped. A message logged with runtime
+        // metadata is an ordinary log message as well, only control requests are not counted
+        if ((macro_metadata->event() == MacroMetadata::Event::Log) ||
+            (macro_metadata->event() == MacroMetadata::Event::LogWithRuntimeMetadata))
         {
           thread_context->increment_failure_counter();
         }
@@ -162,7 +164,8 @@ public:
     {
       if (QUILL_UNLIKELY(write_buffer == nullptr))
       {
-        if (macro_metadata->event() == MacroMetadata::Event::Log)
+        if ((macro_metadata->event() == MacroMetadata::Event::Log) ||
+            (macro_metadata->event() == MacroMetadata::Event::LogWithRuntimeMetadata))
         {
           thread_context->increment_failure_counter();
         }
